@@ -36,6 +36,8 @@ def simplify(run):
     cfg = run['config']
     if cfg.get('peek'):
         c = copy.deepcopy(run); c['config']['peek'] = []; yield c
+    if cfg.get('late_inputs'):
+        c = copy.deepcopy(run); c['config']['late_inputs'] = []; yield c
     if cfg['freeze'] != 'freeze_data':
         c = copy.deepcopy(run); c['config']['freeze'] = 'freeze_data'; yield c
     for k, v in sorted(cfg['how'].items()):
